@@ -1,12 +1,12 @@
 /* C02 `execute_slot_wait`: waiting for a free slot in task_arena::execute (src/tbb/arena.cpp task_arena_impl::execute).
- * Arena A: 2 slots (1 reserved), all occupied when the threads start. Threads (MODE bits: 1 = L, 2 = W):
+ * Arena A: 2 slots (1 reserved), all occupied when the threads start. Threads (MODE bit 1: L present; GATE: W is the entrant's own dispatch loop):
  *   E (tid 0): REAL task_arena_impl::execute(ta, d): occupy_free_slot fails -> delegated_task, enqueue_task [cut: recorded] ->
  *              do { my_exit_monitors.prepare_wait(waiter); if (!wo.continue_execution()) {cancel_wait; break;} index2 = occupy_free_slot;
  *              if (index2 != out_of_arena) {cancel_wait; nested_arena_context; r1::wait [stub: runs the recorded task]; break;} commit_wait } while (...)
  *              (if the leaver is faster, E gets a slot at once and runs d() directly: also legal)
  *   L (tid 1): an execute() caller that entered earlier through the real occupy_free_slot + nested_arena_context constructor, now leaving through
  *              the REAL ~nested_arena_context(): ... my_arena_slot->release(); my_exit_monitors.notify_one()
- *   W        : a worker attached to the other slot executing the delegated task: REAL delegated_task::execute -> d(); finalize():
+ *   W        : whoever executes the delegated task (a worker in the other slot; with GATE=1 the entrant's own dispatch loop inside r1::wait, see the stub): REAL delegated_task::execute -> d(); finalize():
  *              m_wait_ctx.release(); m_monitor.notify(ctx == &delegate)
  * LSLOT = slot the leaver occupies (0 reserved slot / 1 worker slot: then the real request_workers(0,+-1) calls are made too).
  * Oracles: blocked-state oracle (E asleep in its semaphore although a slot is free / its work is done and nobody else will notify);
@@ -44,17 +44,19 @@ void _ZN3tbb6detail2r18governor20init_external_threadEv(void) { VP_ASSERT(0, "th
 /* cut: arena::enqueue_task(dt, ctx, td) = push to the FIFO stream + advertise_new_work<work_enqueued> (arena_flag / C01 cover those): record it */
 void _ZN3tbb6detail2r15arena12enqueue_taskERNS0_2d14taskERNS3_18task_group_contextERNS1_11thread_dataE(ARENA* a, struct S_class_tbb__detail__d1__task* t,
     struct S_class_tbb__detail__d1__task_group_context* ctx, TD* td) { VP_ASSERT(a == &MA.a && n_enq == 0, "one delegated task"); enq_task = t; n_enq++; }
-/* r1::wait(wo, ctx): the thread now owns a slot and runs the dispatch loop until wo is released. Contract stub: if the delegated task is still in
- * the stream, take and execute it here (real delegated_task::execute on the thread's current dispatcher); then return once wo is released. */
+/* r1::wait(wo, ctx): the entrant now owns a slot and runs the dispatch loop until wo is released. The dispatch loop is modelled by model thread W
+ * (real delegated_task::execute on the entrant's current dispatcher): with GATE the recorded task becomes available to W only once the entrant
+ * is in here (nobody else can run it: both other occupants are busy); without GATE W is an independent worker. The stub parks the entrant until
+ * wo is released (wait_context::release -> notify_waiters is what wakes it in reality). */
+int e_in_wait;
 void _ZN3tbb6detail2r14waitERNS0_2d112wait_contextERNS2_18task_group_contextE(struct S_class_tbb__detail__d1__wait_context* wo, struct S_class_tbb__detail__d1__task_group_context* ctx) {
-  if (!task_taken) { task_taken = 1; vp_dt_execute(enq_task, cur_td()); task_finished = 1; vp_changed = 1; }
+  if (!e_in_wait) { e_in_wait = 1; vp_changed = 1; }
   if (!vp_wait_ctx_done(wo)) VP_BLOCK();
 }
-/* worker side: the task becomes available once enqueued; null if somebody else already took it or the entrant needed no delegation */
 struct S_class_tbb__detail__d1__task* vp_take_task(u32 tid) {
-  if (task_taken || done[0]) return 0;
-  if (!n_enq) { VP_BLOCK(); return 0; }
-  task_taken = 1; vp_changed = 1; return enq_task;
+  if (done[0]) return 0;                                   /* the entrant needed no delegation (it got a slot at once) */
+  if (!n_enq || (GATE && !e_in_wait)) { VP_BLOCK(); return 0; }
+  VP_ASSERT(!task_taken, "delegated task taken twice"); task_taken = 1; vp_changed = 1; return enq_task;
 }
 void _ZN3tbb6detail2r114notify_waitersEm(u64 w) {}                          /* wakes threads parked in r1::wait on this wait_context: the stub above polls */
 void _ZN3tbb6detail2r117threading_control13adjust_demandENS1_24threading_control_clientEii(struct S_class_tbb__detail__r1__threading_control* tc,
@@ -72,14 +74,14 @@ void _ZdlPv(u8* p) { VP_ASSERT(0, "operator delete"); }
 void vpx___clang_call_terminate(u8* p) { VP_ASSERT(0, "terminate"); }
 u8 _ZN3tbb6detail2d021timed_spin_wait_untilIZNS0_2r124concurrent_monitor_mutex4lockEvEUlvE_EEbT_(struct S_class_tbb__detail__r1__concurrent_monitor_mutex* mx) { return (u8)vp_cmm_is_free(mx); }
 
-#if HAS_L && HAS_W
+#if HAS_L
 #define T_L vp_thr_leaver_b
 #define T_W vp_thr_worker_c
-#elif HAS_L
-#define T_L vp_thr_leaver_b
 #else
 #define T_W vp_thr_worker_b
 #endif
+#undef HAS_W
+#define HAS_W 1
 #define START(t) START_(t)
 #define START_(t) t##_start
 int main(void) {
@@ -94,7 +96,7 @@ int main(void) {
 #else
   { int ok = vp_slot_occupy(&MA.a, 1); VP_ASSERT(ok, "pre-state: second permanent occupant"); }
 #endif
-#if HAS_W
+#if !GATE
   vp_worker_attach(&TD_W, &MA.a, HAS_L ? perm : 1);
 #endif
   long demand0 = demand;
@@ -103,7 +105,7 @@ int main(void) {
   START(T_L)(&SCOPE_L, 1);
 #endif
 #if HAS_W
-  START(T_W)(&TD_W, HAS_L ? 2 : 1);
+  START(T_W)(GATE ? &TD_E : &TD_W, HAS_L ? 2 : 1);
 #endif
   for (int r = 0; r < ROUNDS; r++) {
     VP_RUNT(vp_thr_entrant_a, 0)
@@ -115,10 +117,8 @@ int main(void) {
 #endif
     for (int x = 0; x < EXTRA_E; x++) { VP_RUNT(vp_thr_entrant_a, 0) }     /* E's loops (wait loop, destructor pump) take one iteration per slice */
   }
-#if HAS_L && HAS_W
+#if HAS_L
   VP_QUIESCE3(vp_thr_entrant_a, T_L, T_W)
-#elif HAS_L
-  VP_QUIESCE2(vp_thr_entrant_a, T_L)
 #else
   VP_QUIESCE2(vp_thr_entrant_a, T_W)
 #endif
